@@ -364,6 +364,7 @@ Theorem add_logic_hom g is_eq m ops l1 l2 r1 r2 :
   res_hom (tm m) r1 r2 l1 l2.
 Proof.
   unfold add_logic. intros H1 H2 Hk N1 N2.
+  destruct (ops_check ops) as [[]|]; cbn [bind] in H1, H2; [|discriminate].
   destruct (logic_poly g is_eq ops) as [[[P lo] hi]|] eqn:EP; cbn [bind] in H1, H2; [|discriminate].
   b1 H1 H2 Pm EPm. exact (add_eq_hom _ _ _ _ _ _ _ H1 H2 Hk N1 N2).
 Qed.
